@@ -5,7 +5,8 @@ dedicated contact scenes (sphere sliding / resting on a tilted plane, capsule wi
 limited chain with friction loss and tendon limits, mixed pile with a connect) and model-SIZE scenes (mc/refs/sizescenes.py:
 a model of exactly nv dofs on each side of every nv-dependent kernel dispatch of the solver -- 32|33 one-tile vs blocked
 Cholesky, 50|51 fused vs separately accumulated/reused jv and Jaref, 60|61 largest dense vs sparse-only, and the nv_pad steps
-47|48|49, 65 -- as a row of k free boxes (every third triple with stiff contacts; one moving and two pressed states) and as
+47|48|49, 65 -- as a row of k free boxes / spheres (every third triple with stiff contacts; one moving and three pressed
+states, i.e. 4 worlds) and as
 serial hinge arms with limits, friction loss, joint equalities and a tendon limit)
 x solver {Newton, CG} x cone {pyramidal, elliptic} x jacobian {dense, sparse} x warmstart {disabled, zero, deliberately bad}
 x a batch of 3 worlds holding different states (design state, second state, design state with 1% velocities).
@@ -26,11 +27,11 @@ LEVEL = "exploration"
 RULE = (
   "enumerate scenes (trees x joint pattern x feature sets, dedicated contact scenes, size scenes {row of boxes, hinge arms} x nv); "
   "each scenario runs 2 solvers x 2 cones x 2 jacobians (dense only where put_model accepts it, nv <= 60) x 3 warmstart modes on a "
-  "3-world batch (a size scene is split into one scenario per solver x cone); non-trivial = >=1 world has a constraint row carrying non-zero force "
+  "3-world batch (a size scene is split into one scenario per solver x cone; its row kind holds 4 worlds); non-trivial = >=1 world has a constraint row carrying non-zero force "
   "and qacc != qacc_smooth; distinct = canonical hash of the spec"
 )
 BOUNDS = {
-  "quick": "feature sets k<=1 (all options) on all 5 trees, k=2 (core options) on one tree each (cycling), joint pattern alternating; 7 dedicated scenes x 2 variants; size scenes: 2 kinds x nv in {32,33,50,51,60,61} x the seed's variant",
+  "quick": "feature sets k<=1 (all options) on all 5 trees, k=2 (core options) on one tree each (cycling), joint pattern alternating; 7 dedicated scenes x 2 variants; size scenes: 2 kinds x nv in {32,33,50,51,60,61} x the seed's variant, warmstart modes {disabled, bad}",
   "thorough": "k<=1 on all trees x both patterns, k=2 (all options) on all trees (pattern alternating), k=3 (core) cycling trees; 7 dedicated scenes x 4 variants; size scenes: 2 kinds x nv in {32,33,47,48,49,50,51,60,61,65} x 2 variants",
 }
 ASSUMPTIONS = [
@@ -102,7 +103,9 @@ def scenarios(tier, seed):
   out.sort(key=lambda s: (0 if s["fam"] == "tree" else 1, len(s.get("feats", []))))
   # model SIZE: one model of an exact nv on each side of every nv-dependent dispatch of the solver (mc/refs/sizescenes.py),
   # in both structural kinds; one scenario per (solver, cone) so that no single scenario dominates the wall time.
-  # quick: the sizes around the kernel-dispatch thresholds, variant of the seed; thorough: all sizes, two variants
+  # quick: the sizes around the kernel-dispatch thresholds, variant of the seed, warmstart {disabled, bad} (the zero warmstart
+  # starts next to the disabled one); thorough: all sizes, two variants, all three warmstart modes
+  ws = ["off", "bad"] if tier == "quick" else ["off", "zero", "bad"]
   for nv, _why, in_quick in ss.SIZES:
     if tier == "quick" and not in_quick:
       continue
@@ -110,7 +113,7 @@ def scenarios(tier, seed):
       for dv in range(1 if tier == "quick" else 2):
         for solver in (2, 1):
           for cone in (0, 1):
-            add(dict(fam="size", kind=kind, nv=nv, variant=(variant + dv) % 4, solver=solver, cone=cone))
+            add(dict(fam="size", kind=kind, nv=nv, variant=(variant + dv) % 4, solver=solver, cone=cone, ws=ws))
   return out
 
 
@@ -332,14 +335,14 @@ def execute(scn):
         mjm.opt.solver = solver
         mjm.opt.disableflags = base_flags
         refs = reference(mjm, states, info["eq_off"])
-        for ws in ("off", "zero", "bad"):
+        for ws in scn.get("ws", ("off", "zero", "bad")):
           mjm.opt.disableflags = base_flags | (DISABLE_WARMSTART if ws == "off" else 0)
           m = mjw.put_model(mjm)
           kw = dict(info["kw"])
           if jac:
             kw["njmax_nnz"] = int(kw.get("njmax", 64)) * mjm.nv
             kw.setdefault("njmax", 64)
-          d = mjw.make_data(mjm, nworld=3, **kw)
+          d = mjw.make_data(mjm, nworld=len(states), **kw)
           for w, (qpos, qvel) in enumerate(states):
             ref = util.mj_data(mjm, qpos=qpos, qvel=qvel)
             if ws == "bad":
@@ -354,7 +357,7 @@ def execute(scn):
           overflow = d.overflow.numpy()
           niter = d.solver_niter.numpy()
           tagkey = f"{'newton' if solver == 2 else 'cg'}:{'elliptic' if cone else 'pyramidal'}:{'sparse' if jac else 'dense'}"
-          for w in range(3):
+          for w in range(len(states)):
             pre = f"{tagkey}:ws_{ws}:w{w}:"
             c.true(pre + "niter", 0 <= int(niter[w]) <= int(mjm.opt.iterations), f"solver_niter {int(niter[w])} > iterations {int(mjm.opt.iterations)}", vkey="niter")
             mjd, okref = refs[w]
@@ -368,5 +371,5 @@ def execute(scn):
     nontrivial=nactive > 0,
     key=util.sha(scn),
     info=dict(nv=int(mjm.nv), active_worlds=nactive, configs=nconfig, worstG=float(f"{worstG:.3g}"), worstS=float(f"{worstS:.3g}"), worstQ=float(f"{worstQ:.3g}"), checked=c.nchecked),
-    counts=dict(extra_evaluations=nconfig * 3, compared_to_mujoco=nref, **{"certificate_" + k: v for k, v in PATHS.items()}),
+    counts=dict(extra_evaluations=nconfig * len(states), compared_to_mujoco=nref, **{"certificate_" + k: v for k, v in PATHS.items()}),
   )
